@@ -49,7 +49,7 @@ func (sc *Script) render(ob *Obligation, pre string, model bool) string {
 	return b.String()
 }
 
-func runSolver(sp solverSpec, script string, timeoutS int, dir string, tag string) (status, out string, secs float64) {
+func runSolver(ctx context.Context, sp solverSpec, script string, timeoutS int, dir string) (status, out string, secs float64) {
 	f, err := os.CreateTemp(dir, "q-*.smt2")
 	if err != nil {
 		return "error", err.Error(), 0
@@ -58,9 +58,9 @@ func runSolver(sp solverSpec, script string, timeoutS int, dir string, tag strin
 	f.WriteString(script)
 	f.Close()
 	args := sp.args(timeoutS, f.Name())
-	ctx, cancel := context.WithTimeout(context.Background(), time.Duration(timeoutS+5)*time.Second)
+	cctx, cancel := context.WithTimeout(ctx, time.Duration(timeoutS+5)*time.Second)
 	defer cancel()
-	cmd := exec.CommandContext(ctx, args[0], args[1:]...)
+	cmd := exec.CommandContext(cctx, args[0], args[1:]...)
 	var buf bytes.Buffer
 	cmd.Stdout = &buf
 	cmd.Stderr = &buf
@@ -75,45 +75,91 @@ func runSolver(sp solverSpec, script string, timeoutS int, dir string, tag strin
 	case "timeout":
 		return "timeout", out, secs
 	}
-	if ctx.Err() != nil || strings.Contains(out, "timeout") || strings.Contains(out, "interrupted") {
+	if ctx.Err() != nil {
+		return "cancelled", out, secs
+	}
+	if cctx.Err() != nil || strings.Contains(out, "timeout") || strings.Contains(out, "interrupted") {
 		return "timeout", out, secs
 	}
 	return "error", out, secs
 }
 
-// discharge runs the portfolio on one obligation.
+type solverAnswer struct {
+	sp     solverSpec
+	status string
+	out    string
+	secs   float64
+}
+
+// discharge races the solver portfolio on one obligation: z3-new starts first; if it has not answered after a
+// short head start the other solvers join. The first definite answer (unsat/sat) wins. With all=true every solver runs to completion.
 func discharge(sc *Script, ob *Obligation, timeoutS int, dir string, all bool) {
 	if ob.Status != "" {
 		return
 	}
+	ctx, cancel := context.WithCancel(context.Background())
+	defer cancel()
+	answers := make(chan solverAnswer, len(solvers))
+	start := func(sp solverSpec) {
+		go func() {
+			script := sc.render(ob, sp.pre, false)
+			st, out, secs := runSolver(ctx, sp, script, timeoutS, dir)
+			answers <- solverAnswer{sp, st, out, secs}
+		}()
+	}
+	ob.Bytes = len(sc.render(ob, "", false))
+	t0 := time.Now()
+	start(solvers[0])
+	started := 1
+	headStart := time.NewTimer(1500 * time.Millisecond)
+	if all {
+		headStart.Reset(0)
+	}
+	defer headStart.Stop()
 	var notes []string
-	for i, sp := range solvers {
-		script := sc.render(ob, sp.pre, false)
-		if i == 0 {
-			ob.Bytes = len(script)
-		}
-		status, out, secs := runSolver(sp, script, timeoutS, dir, ob.ID)
-		ob.TimeS += secs
-		notes = append(notes, fmt.Sprintf("%s: %s (%.2fs)", sp.name, status, secs))
-		if status == "unsat" {
-			ob.Status, ob.Solver = "unsat", sp.name
-			if !all {
+	got := 0
+	for got < started || started < len(solvers) {
+		select {
+		case <-headStart.C:
+			for _, sp := range solvers[started:] {
+				start(sp)
+			}
+			started = len(solvers)
+		case a := <-answers:
+			got++
+			notes = append(notes, fmt.Sprintf("%s: %s (%.2fs)", a.sp.name, a.status, a.secs))
+			if a.status == "error" {
+				notes = append(notes, strings.TrimSpace(firstLines(a.out, 3)))
+			}
+			if a.status == "unsat" {
+				if ob.Status == "" || ob.Status == "unknown" {
+					ob.Status, ob.Solver = "unsat", a.sp.name
+				}
+				if !all {
+					ob.TimeS = time.Since(t0).Seconds()
+					ob.Output = strings.Join(notes, "; ")
+					return
+				}
+			}
+			if a.status == "sat" && ob.Status != "unsat" {
+				ob.Status, ob.Solver = "sat", a.sp.name
+				cancel()
+				_, mout, _ := runSolver(context.Background(), a.sp, sc.render(ob, a.sp.pre, true), timeoutS, dir)
+				ob.Model = mout
+				ob.TimeS = time.Since(t0).Seconds()
+				ob.Output = strings.Join(notes, "; ")
 				return
 			}
-			continue
-		}
-		if status == "sat" {
-			ob.Status, ob.Solver = "sat", sp.name
-			// get a model
-			_, mout, _ := runSolver(sp, sc.render(ob, sp.pre, true), timeoutS, dir, ob.ID)
-			ob.Model = mout
-			ob.Output = strings.Join(notes, "; ")
-			return
-		}
-		if status == "error" {
-			notes = append(notes, strings.TrimSpace(firstLines(out, 3)))
+			if got == started && started < len(solvers) {
+				// the first solver gave up early: bring in the others now
+				for _, sp := range solvers[started:] {
+					start(sp)
+				}
+				started = len(solvers)
+			}
 		}
 	}
+	ob.TimeS = time.Since(t0).Seconds()
 	if ob.Status == "" {
 		ob.Status = "unknown"
 	}
